@@ -31,13 +31,25 @@ Theorem C13_lenient_unknown_retrievable : forall c m k t fs st cs u def e n v,
 Proof. exact lenient_unknown_retrievable. Qed.
 Print Assumptions C13_lenient_unknown_retrievable.
 
+(* as of the fix for F12 the decoded fields are visited in name order and the first failure
+   returns: the call fails, with ErrUnknownField carrying that name and kind unless a field
+   at or before it in name order fails first; and exactly with it when no field of another
+   name fails *)
 Theorem C13_strict_unknown_field : forall c m k t fs st cs u def n v,
   u_strict c = true -> resolve_kind_u c k = UOk def ->
   In (n, v) fs -> registered c def n = false -> is_placeholder v = false ->
-  exists ffs, unmarshal c (DD m k t fs st cs u) = UFail ffs /\
-              In {| fl_class := cls_field; fl_kind := k; fl_field := n |} ffs.
+  exists f n' v', unmarshal c (DD m k t fs st cs u) = UFail [f] /\
+                  In (n', v') fs /\ String.leb n' n = true /\ bind_field c def k n' v' = FFail f.
 Proof. exact strict_unknown_field. Qed.
 Print Assumptions C13_strict_unknown_field.
+
+Theorem C13_strict_unknown_field_alone : forall c m k t fs st cs u def n v,
+  u_strict c = true -> resolve_kind_u c k = UOk def ->
+  In (n, v) fs -> registered c def n = false -> is_placeholder v = false ->
+  (forall n' v' f', In (n', v') fs -> bind_field c def k n' v' = FFail f' -> n' = n) ->
+  unmarshal c (DD m k t fs st cs u) = UFail [{| fl_class := cls_field; fl_kind := k; fl_field := n |}].
+Proof. exact strict_unknown_field_alone. Qed.
+Print Assumptions C13_strict_unknown_field_alone.
 
 Theorem C13_strict_unknown_kind_even_with_default : forall c m k t fs st cs u,
   u_strict c = true -> kind_known c k = false ->
